@@ -264,9 +264,10 @@ def Criterion.matches (c : Criterion) (v : Ver) : Bool :=
 /-- `Range.Match`: every criterion matches. -/
 def rangeMatch (r : List Criterion) (v : Ver) : Bool := r.all (·.matches v)
 
-/-- `unicode.IsSpace` on ASCII (the characters `strings.Map(stripSpace, r)` removes). -/
-def isSpace (c : Char) : Bool :=
-  c = '\t' || c = '\n' || c = '\x0b' || c = '\x0c' || c = '\r' || c = ' '
+/-- `unicode.IsSpace` (the runes `strings.Map(stripSpace, r)` removes; the
+    text is a list of runes — ill-formed bytes are U+FFFD, which `strings.Map`
+    writes out as such and which is not white space). -/
+def isSpace (c : Char) : Bool := uniIsSpace c
 
 def isOpChar (c : Char) : Bool := c = '~' || c = '=' || c = '!' || c = '<' || c = '>'
 
